@@ -1,5 +1,5 @@
 """Property -> rules registry.  (rule function, ports) ; ports None = rule handles ports itself."""
-from .rules import sk, wr, conf, lk, cs
+from .rules import sk, wr, conf, lk, cs, ow, gs, rd
 
 BOTH = ('py', 'js')
 PY = ('py',)
@@ -28,6 +28,26 @@ PROPS = {
     },
     'C11': {
         'rules': [(cs.rule_rx_field, BOTH), (cs.rule_rx_newline, BOTH), (cs.rule_rx_ws, BOTH), (cs.rule_cs_trigger, BOTH), (cs.rule_cs_accept, BOTH), (cs.rule_cs_width, BOTH), (cs.rule_cs_extws, BOTH), (cs.rule_cs_dispatch, BOTH), (cs.rule_cs_writer, BOTH)],
+        'explanation': 'x',
+        'not_decided': 'y',
+    },
+    'C06': {
+        'rules': [(ow.rule_ow_open, BOTH), (ow.rule_ow_fs, BOTH), (ow.rule_ow_sql, None), (ow.rule_ow_pandas, None)],
+        'explanation': 'x',
+        'not_decided': 'y',
+    },
+    'C16': {
+        'rules': [(gs.rule_gs_modstate, None), (gs.rule_gs_classattr, None), (gs.rule_gs_defaults, None), (gs.rule_gs_ctxescape, None), (gs.rule_gs_exec, None)],
+        'explanation': 'x',
+        'not_decided': 'y',
+    },
+    'C12': {
+        'rules': [(rd.rule_rd_mustflow, None), (rd.rule_rd_partition, None), (rd.rule_rd_crla, None), (rd.rule_rd_decode, PY), (rd.rule_rd_eof, PY), (rd.rule_rd_bom, PY), (rd.rule_rd_comment, PY), (rd.rule_rd_rfc, PY), (rd.rule_rd_hdrflag, PY), (rd.rule_rd_replay, PY), (cs.rule_rx_newline, PY)],
+        'explanation': 'x',
+        'not_decided': 'y',
+    },
+    'C20': {
+        'rules': [(rd.rule_rd_jschunk, None), (rd.rule_rd_decode, JS), (rd.rule_rd_eof, JS), (rd.rule_rd_bom, JS), (rd.rule_rd_comment, JS), (rd.rule_rd_rfc, JS), (rd.rule_rd_hdrflag, JS), (rd.rule_rd_replay, JS), (cs.rule_rx_newline, JS)],
         'explanation': 'x',
         'not_decided': 'y',
     },
